@@ -378,6 +378,52 @@ Proof.
     + exists []. split; [apply run_end_err; exact Ee|reflexivity].
 Qed.
 
+(* The loop as a function, generic in the same way (proof device: Model.iter_rows and
+   Model.iter_rows_m are its two instances) *)
+Fixpoint iter_gen {X : Type} (cf : config) (ctor : list cell -> res X) (fcp : option nat)
+         (prev : option (list cell)) (rows : list (list cell)) : list X * option err :=
+  match rows with
+  | [] => ([], None)
+  | row :: rest =>
+      match is_end cf row with
+      | Err e => ([], Some e)
+      | Ok true => ([], None)
+      | Ok false =>
+          match cur_row cf fcp prev row with
+          | Err e => ([], Some e)
+          | Ok cur =>
+              match ctor cur with
+              | Err e => ([], Some e)
+              | Ok o => let (os, e) := iter_gen cf ctor fcp (Some cur) rest in (o :: os, e)
+              end
+          end
+      end
+  end.
+
+Lemma iter_rows_gen cf bs fcp : forall rows prev,
+  iter_rows cf bs fcp prev rows = iter_gen cf (construct (cf_rules cf) bs (cf_nid cf)) fcp prev rows.
+Proof.
+  induction rows as [|row rest IH]; intros prev; cbn [iter_rows iter_gen]; [reflexivity|].
+  destruct (is_end cf row) as [[|]|e]; try reflexivity.
+  fold (cur_row cf fcp prev row). destruct (cur_row cf fcp prev row) as [cur|e]; [|reflexivity].
+  destruct (construct (cf_rules cf) bs (cf_nid cf) cur) as [o|e]; [|reflexivity].
+  rewrite IH. reflexivity.
+Qed.
+
+Lemma iter_rows_m_gen mc bss fcp : forall rows prev,
+  iter_rows_m mc bss fcp prev rows = iter_gen (mc_loop mc) (construct_all (mc_objs mc) bss) fcp prev rows.
+Proof.
+  induction rows as [|row rest IH]; intros prev; cbn [iter_rows_m iter_gen]; [reflexivity|].
+  destruct (is_end (mc_loop mc) row) as [[|]|e]; try reflexivity.
+  change (match mc_ladder mc, fcp, prev with
+          | true, Some f, Some p => fill_row f p row
+          | _, _, _ => Ok row
+          end) with (cur_row (mc_loop mc) fcp prev row).
+  destruct (cur_row (mc_loop mc) fcp prev row) as [cur|e]; [|reflexivity].
+  destruct (construct_all (mc_objs mc) bss cur) as [o|e]; [|reflexivity].
+  rewrite IH. reflexivity.
+Qed.
+
 (* ------------------------------------------------------------------ *)
 (* cells of the processed rows are cells of the worksheet              *)
 
